@@ -217,7 +217,24 @@ def run(ctx):
     ctx.cov["positions_judged"] = stats.get("positions", 0)
     ctx.cov["multi_line_positions"] = stats.get("multi_line_positions", 0)
 
-    cli_check(ctx, [p for p in progs if 0 < len(p) < 3000][:: max(1, len(progs) // (8 if SMOKE else ctx.scale(50, 600)))])
+    cli_progs = [p for p in progs if 0 < len(p) < 3000][:: max(1, len(progs) // (8 if SMOKE else ctx.scale(50, 600)))]
+    # incomplete inputs whose "reached the end of the file" diagnostics are anchored on something
+    # spanning several lines: every token-boundary prefix of templates with multi-line tokens and
+    # multi-line argument / element / initialiser positions (found missing by a seeded change that
+    # exported end_line_number = line_number for ParseError::Incomplete)
+    templates = ['let greeting = shout("héllo\nwörld", 1)\n', 'let xs = [\n  "a\nb",\n  2,\n]\n',
+                 'fun f(x: Int,\n      y: String): Int {\n  g(x,\n    "p\nq")\n}\n',
+                 'let t = (1,\n  "é\n😀",\n  3)\n', 'match f("a\nb") {\n  Some(x) => { x }\n  None => { 0 }\n}\n',
+                 'let d = Dict["k\n" => 1,\n  "v" => 2]\n', 'if g("x\ny") {\n  1\n} else {\n  2\n}\n',
+                 'let p = Foo{ a: "m\nn",\n  b: 2 }\n', 'foo(\n  bar(\n    "s\nt"\n  )\n)\n']
+    incomplete = []
+    lexed = ctx.garden_batch(["lex " + common.hexs(t) for t in templates])
+    for t, r in zip(templates, lexed):
+        ends = sorted({int(m.group(1)) for m in re.finditer(r"\(tok [0-9a-f]* \d+:(\d+):", r or "")})
+        b = t.encode("utf-8")
+        incomplete += [b[:e].decode("utf-8", "ignore") for e in ends]
+    ctx.cov["check_json_incomplete_inputs"] = len(incomplete)
+    cli_check(ctx, cli_progs + incomplete)
     cli_run(ctx)
     keys = sorted({f["key"] for f in ctx.failures})
     if keys:
